@@ -782,7 +782,7 @@ def preamble_text(features, sedname='ymc.sed'):
     return s
 
 
-SED_TEXT = ('s/\\\\cref{ka}/Gyaq        Gybq/g\n'
+SED_TEXT = ('s/\\\\cref{ka}/Gyaq              Gybq/g\n'
             's/\\\\Cref{ka}/Gycq/g\n'
             's/\\\\crefrange{ka}{kb}/Gydq          Gyeq/g\n')
 
